@@ -281,7 +281,7 @@ fn rescale_dir(r: &mut Rng, d: [f64; 3]) -> [f64; 3] {
         _ => d,
     }
 }
-pub const N_RK: u64 = 8;
+pub const N_RK: u64 = 9;
 /// one local ray of kind `rk`: (origin, direction)
 fn rand_local_ray(r: &mut Rng, shape: usize, g: (f64, f64, f64, f64), rk: u64) -> ([f64; 3], [f64; 3]) {
     let (rad, zlo, zhi, phimax) = g;
@@ -301,6 +301,28 @@ fn rand_local_ray(r: &mut Rng, shape: usize, g: (f64, f64, f64, f64), rk: u64) -
             [u[0] / l * k * rad, u[1] / l * k * rad, zlo + (zhi - zlo) * r.range(-0.2, 1.2)]
         }
     };
+    if rk == 8 {
+        // chord through two chosen surface points: every combination of {inside, outside} the z-clips and the
+        // angular clip for the first and for the second crossing (the second crossing is only reported when the
+        // first is clipped away, and must then pass ALL the clips itself)
+        let pick = |r: &mut Rng| -> [f64; 3] {
+            let (lo, hi) = if shape == 0 { (zlo.max(-rad), zhi.min(rad)) } else { (zlo, zhi) };
+            let span = (hi - lo).max(1e-9 * rad);
+            let z_in = r.chance(0.5);
+            let z = if z_in { lo + span * r.range(0.05, 0.95) }
+                    else if shape == 0 { let c = if r.chance(0.5) { r.range(hi.min(rad * 0.999), rad * 0.999) } else { r.range(-rad * 0.999, lo.max(-rad * 0.999)) }; c }
+                    else { if r.chance(0.5) { hi + span * r.range(0.05, 0.6) } else { lo - span * r.range(0.05, 0.6) } };
+            let pm = phimax.min(2.0 * PI);
+            let phi = if r.chance(0.5) || pm >= 2.0 * PI - 1e-9 { pm * r.range(0.05, 0.95) } else { pm + (2.0 * PI - pm) * r.range(0.05, 0.95) };
+            surf_point(shape, rad, z, phi)
+        };
+        let a = pick(r); let b = pick(r);
+        let d = add(&b, &a, -1.0);
+        if dotv(&d, &d) > 1e-6 * rad * rad {
+            let k = r.range(0.2, 3.0);
+            return (add(&a, &d, -k), rescale_dir(r, d));
+        }
+    }
     match rk {
         0 => { // from outside, aimed at a point of the (unclipped) surface
             let ic = r.chance(0.5); let t = rand_target(r, shape, g, ic);
